@@ -19,10 +19,12 @@ META = {
         "_run_request returns None only when the reply body is empty; C06.5 check_for_errors never modifies the reply it is given "
         "(a second check / access of the same batch item raises again); C06.6 (shared with C08.2) every reply is decoded with the "
         "proxy's own configuration, so an error object's data member is translated (or not) as for any other reply and cannot raise a "
-        "foreign exception type through another object's configuration.; C06.7 (imported C19.3) every reply is reassembled in its own buffer: no data of an earlier, possibly truncated, reply is parsed with the next one C06.9 (imported from C02.6) replies are decoded by json.loads itself (a home-made decoder - raw_decode, pre-processing - would accept bodies that are not JSON texts and return a value where an error is due)."),
+        "foreign exception type through another object's configuration.; C06.7 (imported C19.3) every reply is reassembled in its own buffer: no data of an earlier, possibly truncated, reply is parsed with the next one C06.9 (imported from C02.6) replies are decoded by json.loads itself (a home-made decoder - raw_decode, pre-processing - would accept bodies that are not JSON texts and return a value where an error is due). C06.10 (imported from C01.4 / C17.3) the i-th access of a MultiCall result is applied to the i-th reply of the batch as received (no re-ordering or matching by id, which drops replies whose id is null), and the reply body is accumulated raw and decoded once. C06.11 MultiCallIterator keeps the list of replies it is given, as given (`self.results = results`), and MultiCall hands it the decoded reply of its own exchange: no filtering, matching by id or re-ordering stands between the replies and their access (an error reply with a null id would otherwise be dropped or shifted)."),
     "does_not_decide": "nothing value-level beyond the comparisons; envelope-level rejections raised before the error "
                        "branch (non-dict reply, jsonrpc > 2.0) are outside the property's domain.",
-    "rules": {"C06.9": "imported C02.6 (backend options, loader)",
+    "rules": {"C06.11": "provenance of the stored reply list",
+              "C06.10": "imported C01.4 (batch accessor), C17.3 (raw accumulation, one decode)",
+              "C06.9": "imported C02.6 (backend options, loader)",
               "C06.7": "imported C19.3", "C06.1": "E4 may-raise analysis restricted to the region dominated by the truthy error member",
               "C06.2": "shape interpreter (E7) over reply shapes vs spec A.1 range", "C06.3": "provenance of return values",
               "C06.4": "dominance of the check over each consumer; provenance of the checked value", "C06.5": "mutation scan with receiver provenance",
@@ -290,3 +292,23 @@ def check(ck):
     from rules import c02 as _c02t6, common as _cm69
     _cm69.import_rules(ck, _c02t6, {"C02.6": "C06.9"})
     ck.floor("C06.9", 3)
+
+    # ---- C06.10 the reply reaches check_for_errors as sent (shared with C01.4 / C17.3) -------------------------------------------
+    from rules import c01 as _c01b, c17 as _c17b, common as _cm610
+    _cm610.import_rules(ck, _c01b, {"C01.4": "C06.10"})
+    _cm610.import_rules(ck, _c17b, {"C17.3": "C06.10"})
+    ck.floor("C06.10", 6)
+
+    # ---- C06.11 the replies are accessed as received ---------------------------------------------------------------------------
+    from vlib.cfg import cfg_of as _cfg611
+    from vlib import prov as _prov611
+    fmi = prog.func("jsonrpc", "MultiCallIterator.__init__")
+    gmi = _cfg611(fmi)
+    st611 = [n for n in gmi.live_nodes() if n.kind == "stmt" and isinstance(n.ast, ast.Assign) and any(dump(t) == "self.results" for t in n.ast.targets)]
+    if not st611:
+        raise AnalysisError("anchor vanished: self.results store in MultiCallIterator.__init__")
+    for n in st611:
+        alts = _prov611.value_alts(_prov611.origin(gmi, n, n.ast.value))
+        ck.require(alts == set([("param", "results")]), "C06.11", "%s: `%s`" % (q.fn(fmi), q.stmt_text(n)), "the replies as given",
+                   "the iterator stores %s instead of the list of replies it is given: replies are filtered / matched / re-ordered before "
+                   "they are checked for errors" % sorted(_prov611.show(a)[:40] for a in alts), q.loc(fmi, n))
